@@ -4,7 +4,6 @@ import (
 	"encoding/json"
 	"fmt"
 	"os"
-	"path/filepath"
 	"strings"
 
 	"github.com/dappledger/AnnChain/eth/accounts/abi"
@@ -106,15 +105,12 @@ func probeQuery(base string) {
 		w.accounts[a] = newAccount(a)
 	}
 	w.abi, _ = abi.JSON(strings.NewReader(core.AdminABI))
-	gen := chainutil.Genesis(w.nodes, []int64{1, 1, 1, 1, -1}, "adminOp")
-	rn := &runner{rep: mbt.NewReport(), tr: tr, w: w, reps: map[int]*replica{}, sent: map[string]uint64{}, last: map[string][]byte{}}
-	for id := 1; id <= 2; id++ {
-		r, err := newReplica(id, filepath.Join(base, fmt.Sprintf("q%d", id)), gen, chainutil.NewKey("observer"))
-		if err != nil {
-			panic(err)
-		}
-		rn.reps[id] = r
+	pr, err := newPair(base, 999, w.nodes, []int64{1, 1, 1, 1, -1}, 2)
+	if err != nil {
+		panic(err)
 	}
+	defer pr.close()
+	rn := &runner{rep: mbt.NewReport(), tr: tr, w: w, reps: pr.reps, pair: pr, sent: map[string]uint64{}, last: map[string][]byte{}}
 	full := []sigEntry{{"ok", 1}, {"ok", 2}, {"ok", 3}, {"ok", 4}}
 	b := body{Cmd: "update", Tgt: 2, Pw: 2, Addr: "a", N: 0, Ct: "ok", Self: "ok"}
 	raw := w.ethTx(w.accounts["a"], 0, "contract", w.accounts["a"].addr, w.adminCmd(b, full, 77))
